@@ -204,7 +204,45 @@ def run_c15(pid: str, tier: str) -> int:
     else:
         tlc.require_clean(res, 'NotationsInjective')
     chk.add_tlc(res, 'ASSUME NotationsInjective (complete domains)')
-    events = c15_events()
+    # two callers at the same time, first use of every converter in this process
+    from . import race
+
+    def make_calls():
+        Bid, Card, Contract, Hands, Pair, Player, Suit, Vul = _imp()
+
+        def mk(tag, shift):
+            def call():
+                R = Rec(tag)
+                a = (7 + shift) % 52
+                R.add('card.from_int', {'a': a},
+                      lambda: (lambda c: {'rank': c.rank, 'suit': c.suit.value - 1})(Card.int_to_card(a)))
+                t = str(Card.int_to_card((20 + shift) % 52))
+                R.add('card.from_str', {'text': t}, lambda: {'out': int(Card.str_to_card(t))})
+                b = (3 + 11 * shift) % 38
+                R.add('bid.from_int', {'a': b}, lambda: {'out': Bid.int_to_bid(b).idx})
+                bt = str(Bid.int_to_bid((17 + shift) % 38))
+                R.add('bid.from_str', {'text': bt}, lambda: {'out': Bid.str_to_bid(bt).idx})
+                for s in range(4):
+                    p = Player((s + shift) % 4 + 1)
+                    R.add('seat.props', {'a': p.value - 1},
+                          lambda: {'str': str(p), 'formal': p.formal_name, 'left': seatv(p.left),
+                                   'next': seatv(p.next_player), 'right': seatv(p.right),
+                                   'partner': seatv(p.partner), 'pair': p.pair.value - 1,
+                                   'opp': p.opponent_pair.value - 1,
+                                   'from_formal': seatv(Player.convert_formal_name(p.formal_name)),
+                                   'from_name': seatv(Player[str(p)])})
+                for t2 in (['Love', 'All', 'NS'] if shift else ['-', 'Both', 'EW', 'None']):
+                    R.add('vul.from_str', {'text': t2}, lambda: {'out': Vul.str_to_vul(t2).value - 1})
+                ct = ['3NTX', '1C', '7SXX'][shift % 3]
+                R.add('contract.from_str', {'text': ct, 'vul': shift % 4, 'decl': (1 + shift) % 4},
+                      lambda: (lambda c: {'out_bid': c.final_bid.idx, 'out_x': bool(c.x), 'out_xx': bool(c.xx),
+                                          'out_vul': c.vul.value - 1, 'out_decl': seatv(c.declarer)})(
+                          Contract.str_to_contract(ct, vul=Vul(shift % 4 + 1), declarer=Player((1 + shift) % 4 + 1))))
+                return R.evs
+            return call
+        return mk('A', 0), mk('B', 1)
+    race_events = race.run_race(chk, 'converters', make_calls, 250)
+    events = race_events + c15_events()
     for e in events:
         chk.count(tuple((k, str(v)) for k, v in e.items()
                         if k in ('fn', 'a', 'b', 'rank', 'suit', 'text', 'level',
@@ -451,6 +489,34 @@ def run_c14(pid: str, tier: str) -> int:
     for evs in pmap(c14_job, jobs):
         events.extend(evs)
     events += c14_random_events(100 if quick else 3000, seed())
+    from . import race
+
+    def make_calls():
+        Hands = _imp()[3]
+
+        def mk(tag, sd_):
+            def call():
+                R = Rec(tag)
+                st = _random.getstate()
+                _random.seed(sd_)
+                R.add('deal.random', {'seed': sd_}, lambda: {'out': project_hands(Hands.generate_random_hands())})
+                _random.setstate(st)
+                dl = random_deal(rng('race14', sd_))
+                hb = make_hands(dl)
+                f = sd_ % 4
+                box = {}
+
+                def enc():
+                    box['t'] = hb.to_pbn(_imp()[5](f + 1))
+                    return {'out': box['t']}
+                R.add('deal.to_pbn', {'deal': dl, 'first': f}, enc)
+                if 't' in box:
+                    R.add('deal.from_pbn', {'text': box['t'], 'first': f},
+                          lambda: {'out': project_hands(Hands.convert_pbn(box['t']))})
+                return R.evs
+            return call
+        return mk('A', 11), mk('B', 22)
+    events += race.run_race(chk, 'dealer-and-codecs', make_calls, 250)
     for e in events:
         key = (e['fn'], e.get('first'), e.get('kind'), str(e.get('deal', e.get('text', e.get('vecs', e.get('lists', e.get('seed', ''))))))[:400])
         nontrivial = 'deal' not in e or any(e['deal'])
